@@ -7,6 +7,7 @@
 
 use crate::{arch, glue};
 use mila::{BinArchive, Game, Language, LayeredFilesystem, TextArchive};
+use rayon::prelude::*;
 use serde_json::{json, Value};
 use std::collections::{BTreeMap, BTreeSet};
 use std::path::{Path, PathBuf};
@@ -1385,44 +1386,75 @@ pub fn explore(ctx: &Ctx, which: Which) -> Outcome {
     let mut per_cfg = Vec::new();
     let cfgs = if which == Which::C14 { configs_c14(ctx.tier) } else { configs(ctx.tier) };
     let mut wit_total: BTreeMap<String, u64> = BTreeMap::new();
-    for (ci, cfg) in cfgs.into_iter().enumerate() {
-        // the sibling-files start state and the other-languages-only layer exist for the write /
-        // look-up side (C12, C14); the listing observers of C13 gain nothing from them
-        if which == Which::C13 && (cfg.name.contains("siblings") || cfg.name.contains("other languages only") || cfg.name.contains("a+d/a, symlinked files")) {
-            continue;
-        }
-        let mut depth = cfg.depth;
-        // C13 at the quick tier: the listing observers run once per distinct state and dominate the
-        // cost; the single-file / empty-directory lower layers get one level less there
-        if which == Which::C13 && ctx.tier == Tier::Quick && depth >= 3 && cfg.lowers.len() == 2 && (cfg.name.ends_with(", a]") || cfg.name.ends_with(", d/]") || cfg.name.ends_with(", a/]")) {
-            depth -= 1;
-        }
-        let sys = Sys { cfg, which, base: base.join(format!("c{}", ci)) };
-        let c14_scale = which == Which::C14 && sys.cfg.name.contains("a+d/a") && [(Loc::FE10, Lang::German), (Loc::FE14, Lang::EnglishNA), (Loc::FE15, Lang::Japanese), (Loc::FE13, Lang::EnglishEU)].contains(&(sys.cfg.loc, sys.cfg.lang));
-        if (which == Which::C12 && sys.cfg.lowers.len() == 1) || c14_scale {
-            let n = scale_script(&sys, &mut o);
-            cov.transitions += n;
-        }
-        if which != Which::C14 && sys.cfg.lowers.len() == 1 {
-            let n = odd_names_script(&sys, &mut o);
-            cov.transitions += n;
-            *wit_total.entry("odd-names scripts".into()).or_insert(0) += 1;
-        }
-        let rep = bfs::explore(&sys, Some(depth), None);
-        cov.states += rep.states;
-        cov.transitions += rep.transitions;
-        cov.evaluations += rep.inspected;
-        per_cfg.push(json!({"config": sys.cfg.name, "layers": sys.cfg.lowers.len() + 1, "depth": depth, "states": rep.states, "transitions": rep.transitions, "states_observed": rep.inspected}));
-        for (n, c) in &rep.witness_counts {
-            *wit_total.entry(n.clone()).or_insert(0) += c;
+    // configurations are independent: explored in parallel, merged in configuration order
+    struct CfgResult {
+        local: Outcome,
+        transitions: u64,
+        states: u64,
+        inspected: u64,
+        per_cfg: Value,
+        wit: Vec<(String, u64)>,
+        sample: Option<Value>,
+    }
+    let tier = ctx.tier;
+    let results: Vec<Option<CfgResult>> = cfgs
+        .into_par_iter()
+        .enumerate()
+        .map(|(ci, cfg)| {
+            // the sibling-files start state and the other-languages-only layer exist for the write /
+            // look-up side (C12, C14); the listing observers of C13 gain nothing from them
+            if which == Which::C13 && (cfg.name.contains("siblings") || cfg.name.contains("other languages only") || cfg.name.contains("a+d/a, symlinked files")) {
+                return None;
+            }
+            let mut o = Outcome::default();
+            let mut transitions = 0u64;
+            let mut wit: Vec<(String, u64)> = Vec::new();
+            let mut depth = cfg.depth;
+            // C13 at the quick tier: the listing observers run once per distinct state and dominate the
+            // cost; the single-file / empty-directory lower layers get one level less there
+            if which == Which::C13 && tier == Tier::Quick && depth >= 3 && cfg.lowers.len() == 2 && (cfg.name.ends_with(", a]") || cfg.name.ends_with(", d/]") || cfg.name.ends_with(", a/]")) {
+                depth -= 1;
+            }
+            let sys = Sys { cfg, which, base: base.join(format!("c{}", ci)) };
+            let c14_scale = which == Which::C14 && sys.cfg.name.contains("a+d/a") && [(Loc::FE10, Lang::German), (Loc::FE14, Lang::EnglishNA), (Loc::FE15, Lang::Japanese), (Loc::FE13, Lang::EnglishEU)].contains(&(sys.cfg.loc, sys.cfg.lang));
+            if (which == Which::C12 && sys.cfg.lowers.len() == 1) || c14_scale {
+                transitions += scale_script(&sys, &mut o);
+            }
+            if which != Which::C14 && sys.cfg.lowers.len() == 1 {
+                transitions += odd_names_script(&sys, &mut o);
+                wit.push(("odd-names scripts".into(), 1));
+            }
+            let rep = bfs::explore(&sys, Some(depth), None);
+            transitions += rep.transitions;
+            let per_cfg = json!({"config": sys.cfg.name, "layers": sys.cfg.lowers.len() + 1, "depth": depth, "states": rep.states, "transitions": rep.transitions, "states_observed": rep.inspected});
+            for (n, c) in &rep.witness_counts {
+                wit.push((n.clone(), *c));
+            }
+            let sample = rep.sample_histories.iter().take(1).map(|h| json!({"config": sys.cfg.name, "history": h})).next();
+            for v in rep.violations {
+                o.violate(v.sig, format!("[{}] {}", sys.cfg.name, v.summary), json!({"config_index": ci, "config": sys.cfg.name, "history": v.history, "tier": tier.name()}));
+            }
+            Some(CfgResult { local: o, transitions, states: rep.states, inspected: rep.inspected, per_cfg, wit, sample })
+        })
+        .collect();
+    for r in results.into_iter().flatten() {
+        cov.states += r.states;
+        cov.transitions += r.transitions;
+        cov.evaluations += r.inspected;
+        per_cfg.push(r.per_cfg);
+        for (n, c) in r.wit {
+            *wit_total.entry(n).or_insert(0) += c;
         }
         if cov.samples.len() < 3 {
-            for h in rep.sample_histories.iter().take(1) {
-                cov.samples.push(json!({"config": sys.cfg.name, "history": h}));
+            if let Some(s) = r.sample {
+                cov.samples.push(s);
             }
         }
-        for v in rep.violations {
-            o.violate(v.sig, format!("[{}] {}", sys.cfg.name, v.summary), json!({"config_index": ci, "config": sys.cfg.name, "history": v.history, "tier": ctx.tier.name()}));
+        for m in r.local.machinery_errors {
+            o.machinery(m);
+        }
+        for v in r.local.violations {
+            o.violate(v.sig, v.summary, v.case);
         }
     }
     // constructor errors
